@@ -52,7 +52,13 @@ GrpV(ia)     == [k |-> "grp", ia |-> ia]              \* the namespace of a clas
 StrE         == [k |-> "str", v |-> ""]               \* the empty string
 EList        == [k |-> "elist"]                       \* the empty list
 PathV        == [k |-> "path"]                        \* the value carries __path__ (it was loaded from its own file)
-RefV         == [k |-> "ref"]                         \* in a saved main file: the name of a sub-config file
+RefV         == [k |-> "ref"]
+\* (round 5) n: a class argument Model(aug, q) whose parameter aug holds a NESTED value: a dataclass AugD(seed, r = 0)
+\* (shape.nkind "dco": aug: Optional[AugD] = None; "dcp": aug: AugD) or a class InnerC(seed, r = 0) ("deep": aug: InnerC).
+\* The link target "np" is the MANDATORY field seed of that nested value (n.init_args.aug.seed, for "deep"
+\* n.init_args.aug.init_args.seed).  inner = NoneV (aug is None / not there) or InV(ia), ia over a subset of {"seed", "r"}.
+InV(ia)      == [k |-> "in", ia |-> ia]
+NestV(q, inner) == [k |-> "nest", q |-> q, inner |-> inner]                         \* in a saved main file: the name of a sub-config file
 
 Params(c) == CASE c = "Base" -> {"p", "q"} [] c = "Sub" -> {"p", "q", "r"} [] c = "NoP" -> {"q"}
                [] c \in {"Src", "SrcSub"} -> {"limit", "q"} [] c = "SrcNoL" -> {"q"} [] OTHER -> {}
@@ -62,6 +68,7 @@ Drop(f, x)   == [y \in DOMAIN f \ {x} |-> f[y]]
 \* ------------------------------------------------------------------ shapes, links, compute functions
 Targets(shape)   == {shape.links[i].tgt : i \in DOMAIN shape.links}
 HasM(shape)      == "mp" \in Targets(shape)
+HasN(shape)      == "np" \in Targets(shape)
 SourcesOf(shape) == UNION {{shape.links[i].srcs[j] : j \in DOMAIN shape.links[i].srcs} : i \in DOMAIN shape.links}
 HasS(shape)      == SourcesOf(shape) \cap {"s", "sl"} # {}
 HasO(shape)      == "o" \in SourcesOf(shape)
@@ -111,12 +118,15 @@ TargetEqLink(shape, c, l) ==
            [] c.m.k = "cls"  -> ("p" \in Params(c.m.c)) => ("p" \in DOMAIN c.m.ia /\ c.m.ia["p"] = e)
            [] c.m.k = "list" -> \A n \in DOMAIN c.m.v : ("p" \in Params(c.m.v[n].c)) => ("p" \in DOMAIN c.m.v[n].ia /\ c.m.v[n].ia["p"] = e)
            [] OTHER          -> TRUE                                   \* m is None: there is no target
+    \* (round 5) the nested value exists => its field seed holds the function of the sources
+    [] l.tgt = "np" -> (c.n.k = "nest" /\ c.n.inner.k = "in") => ("seed" \in DOMAIN c.n.inner.ia /\ c.n.inner.ia["seed"] = e)
 TargetEq(shape, c) == \A i \in DOMAIN shape.links : TargetEqLink(shape, c, shape.links[i])
 
 \* an item supplies a value for the target itself (directly or inside the enclosing spec)
 GivesP(spec) == "p" \in DOMAIN spec.given
 SuppliesTarget(it) ==
   \/ it.key \in {"t", "d", "mp"}
+  \/ it.key = "n" /\ it.val.inner.k = "in" /\ "seed" \in DOMAIN it.val.inner.ia
   \/ it.key = "m"  /\ (IF it.val.k = "specs" THEN \E n \in DOMAIN it.val.v : GivesP(it.val.v[n]) ELSE GivesP(it.val))
 \* the option of a plain-argument target (t, d, or the parameter of a class group) is used on the command line
 UsesPlainOption(shape, it) == it.chan = "argv" /\ (it.key \in {"t", "d"} \/ (it.key = "mp" /\ shape.mkind = "grp"))
@@ -128,12 +138,14 @@ HidesTargetLink(dump, l) ==
     [] l.tgt = "mp" -> CASE dump.m.k \in {"grp", "cls"} -> "p" \notin DOMAIN dump.m.ia
                          [] dump.m.k = "list" -> \A n \in DOMAIN dump.m.v : "p" \notin DOMAIN dump.m.v[n].ia
                          [] OTHER -> TRUE
+    [] l.tgt = "np" -> (dump.n.k = "nest" /\ dump.n.inner.k = "in") => "seed" \notin DOMAIN dump.n.inner.ia
 DumpHidesTarget(shape, dump) == \A i \in DOMAIN shape.links : HidesTargetLink(dump, shape.links[i])
 \* re-parsing the dump gives the targets back
 TargetsOf(shape, c) == [i \in DOMAIN shape.links |->
    LET l == shape.links[i] IN
    IF ~Live(c, l) THEN <<"ignored">>
    ELSE IF l.tgt \in {"t", "d"} THEN <<c[l.tgt]>>
+   ELSE IF l.tgt = "np" THEN (IF c.n.k = "nest" /\ c.n.inner.k = "in" THEN <<IF "seed" \in DOMAIN c.n.inner.ia THEN c.n.inner.ia["seed"] ELSE Absent>> ELSE << >>)
    ELSE IF c.m.k \in {"grp", "cls"} THEN <<IF "p" \in DOMAIN c.m.ia THEN c.m.ia["p"] ELSE Absent>>
    ELSE IF c.m.k = "list" THEN [n \in DOMAIN c.m.v |-> IF "p" \in DOMAIN c.m.v[n].ia THEN c.m.v[n].ia["p"] ELSE Absent]
    ELSE << >>]
@@ -172,8 +184,9 @@ Defaults(shape) ==
          ELSE IF shape.mkind = "grp" THEN GrpV([x \in {"q"} |-> Int(0)])    \* the linked parameter p is not in the defaults
          ELSE NoneV,
    s |-> IF HasS(shape) THEN NoneV ELSE Absent, o |-> IF HasO(shape) THEN NoneV ELSE Absent,
+   n |-> IF HasN(shape) THEN NoneV ELSE Absent,                            \* (round 5) a class argument: default None
    mpath |-> Absent]                                                        \* meta: m carries __path__
-Err == [ok |-> FALSE, c |-> Defaults([links |-> << >>, mkind |-> "init", req |-> FALSE, sub |-> FALSE, ap |-> FALSE])]
+Err == [ok |-> FALSE, c |-> Defaults([links |-> << >>, mkind |-> "init", nkind |-> "dco", req |-> FALSE, sub |-> FALSE, ap |-> FALSE])]
 Ok(c) == [ok |-> TRUE, c |-> c]
 
 \* a class spec item: [k |-> "spec", c |-> class, given |-> init_args given].  While the sources are merged a class
@@ -185,8 +198,15 @@ NewCls(shape, prev, spec) ==
   ClsV(spec.c, [x \in Params(spec.c) \cap (DOMAIN spec.given \cup DOMAIN old) |-> IF x \in DOMAIN spec.given THEN spec.given[x] ELSE old[x]])
 FreshCls(shape, spec) == NewCls(shape, NoneV, spec)
 FillCls(shape, v) == ClsV(v.c, [x \in Params(v.c) |-> IF x \in DOMAIN v.ia THEN v.ia[x] ELSE DefaultIA(shape, v.c)[x]])
+\* (round 5) the defaults of the nested value: r = 0; the mandatory field seed is a linked target (the parser of the
+\* parameter is told so: adapt_class_type, _typehints.py:1383-1398; _signatures.py:355-358) and is not required.  A
+\* mandatory parameter aug (dcp: a dataclass, expanded into the class parser) exists even when nothing was given for it.
+FillN(shape, v) ==
+  IF v.k # "nest" THEN v
+  ELSE LET inn == IF v.inner.k = "in" THEN v.inner ELSE IF shape.nkind = "dcp" THEN InV(<< >>) ELSE v.inner
+       IN NestV(v.q, IF inn.k = "in" THEN InV([x \in DOMAIN inn.ia \cup {"r"} |-> IF x \in DOMAIN inn.ia THEN inn.ia[x] ELSE Int(0)]) ELSE inn)
 AddSubDefaults(shape, c) ==
-  [c EXCEPT !.s = IF c.s.k = "cls" THEN FillCls(shape, c.s) ELSE c.s,
+  [c EXCEPT !.n = FillN(shape, @), !.s = IF c.s.k = "cls" THEN FillCls(shape, c.s) ELSE c.s,
             !.m = IF c.m.k = "cls" THEN FillCls(shape, c.m)
                   ELSE IF c.m.k = "list" THEN ListV([n \in DOMAIN c.m.v |-> FillCls(shape, c.m.v[n])]) ELSE c.m]
 \* one supplied item; r = [ok, c]
@@ -196,6 +216,7 @@ Assign(shape, c, it) ==
          IF it.chan = "argv" THEN Err                                       \* ActionLink.__call__:257-259
          ELSE Ok([c EXCEPT ![it.key] = it.val])                             \* checked against the target's type, kept until the links run
     [] it.key \in {"o"} -> Ok([c EXCEPT !.o = it.val])
+    [] it.key = "n" -> Ok([c EXCEPT !.n = NestV(Int(0), it.val.inner)])       \* (round 5; at most one such item per case)
     [] it.key = "s" -> Ok([c EXCEPT !.s = IF it.val.k = "null" THEN NoneV ELSE NewCls(shape, c.s, it.val)])
     [] it.key = "sl" ->        \* --s.limit=v: the declared class itself when s is None; an error if the class has no limit
          LET cur == IF c.s.k = "cls" THEN c.s ELSE FreshCls(shape, [c |-> "Src", given |-> << >>]) IN
@@ -226,7 +247,9 @@ Fold(shape, r, items, n) == IF ~r.ok \/ n > Len(items) THEN r ELSE Fold(shape, A
 
 \* set_target_value:387-406
 SetTargetValue(shape, c, l, value) ==
-  IF l.tgt \in {"t", "d"} THEN [c EXCEPT ![l.tgt] = value]                                   \* :406
+  IF l.tgt = "np" THEN (IF c.n.k = "nest" /\ c.n.inner.k = "in" THEN [c EXCEPT !.n = NestV(@.q, InV(Put(@.inner.ia, "seed", value)))]   \* :406
+                        ELSE c)                                                                     \* :403-405 target not found
+  ELSE IF l.tgt \in {"t", "d"} THEN [c EXCEPT ![l.tgt] = value]                                   \* :406
   ELSE IF shape.mkind = "grp" THEN [c EXCEPT !.m = GrpV(Put(c.m.ia, "p", value))]             \* not a subclass type: :406
   ELSE IF c.m.k = "list" /\ \E n \in DOMAIN c.m.v : "p" \in DOMAIN c.m.v[n].ia               \* :398
        THEN [c EXCEPT !.m = ListV([n \in DOMAIN c.m.v |-> IF "p" \in DOMAIN c.m.v[n].ia       \* :399-402
@@ -294,7 +317,8 @@ RefParseOK(shape, items, out) ==
 \*   (shape.ap: the moved link action still names its target without the prefix of the ActionParser argument, so :459-460
 \*   pops nothing; the linked_targets of a class argument are found through action.dest, which was prefixed)
 StripLink(shape, c, l) ==
-  IF shape.ap /\ (l.tgt \in {"t", "d"} \/ c.m.k = "grp") THEN c
+  IF l.tgt = "np" THEN (IF c.n.k = "nest" /\ c.n.inner.k = "in" THEN [c EXCEPT !.n = NestV(@.q, InV(Drop(@.inner.ia, "seed")))] ELSE c)   \* :463-465
+  ELSE IF shape.ap /\ (l.tgt \in {"t", "d"} \/ c.m.k = "grp") THEN c
   ELSE IF l.tgt \in {"t", "d"} THEN [c EXCEPT ![l.tgt] = Absent]
   ELSE IF c.m.k = "grp" THEN [c EXCEPT !.m = GrpV(Drop(c.m.ia, "p"))]
   ELSE IF c.m.k = "cls" THEN [c EXCEPT !.m = ClsV(c.m.c, Drop(c.m.ia, "p"))]
@@ -334,11 +358,12 @@ PlainItems(dump) ==
   \o (IF dump.o.k \in {"absent", "none"} THEN << >> ELSE <<Cfg("o", dump.o)>>)
   \o (IF dump.s.k = "cls" THEN <<Cfg("s", SpecOf(dump.s))>> ELSE << >>)
   \o (IF dump.t.k = "absent" THEN << >> ELSE <<Cfg("t", dump.t)>>) \o (IF dump.d.k = "absent" THEN << >> ELSE <<Cfg("d", dump.d)>>)   \* (only under ApDropsLinks)
-DumpItems(shape, dump) == PlainItems(dump) \o MItems("cfg", dump.m)
+NItems(chan, nv) == IF nv.k = "nest" THEN <<[chan |-> chan, key |-> "n", val |-> [k |-> "nspec", inner |-> nv.inner]]>> ELSE << >>
+DumpItems(shape, dump) == PlainItems(dump) \o MItems("cfg", dump.m) \o NItems("cfg", dump.n)
 \* (pre = the items of the parser's default config file: the same parser reads it again)
 AlgReparse(shape, pre, dump) == AlgParse(shape, pre \o DumpItems(shape, dump))
 AlgSaveReparse(shape, pre, sv) ==
-  AlgParse(shape, pre \o PlainItems(sv.main) \o (IF sv.main.m.k = "ref" THEN MItems("cfgfile", sv.sub) ELSE MItems("cfg", sv.main.m)))
+  AlgParse(shape, pre \o PlainItems(sv.main) \o (IF sv.main.m.k = "ref" THEN MItems("cfgfile", sv.sub) ELSE MItems("cfg", sv.main.m)) \o NItems("cfg", sv.main.n))
 
 \* ------------------------------------------------------------------ (round 4) histories
 \* The caller changes sources in the namespace a parse returned and parses that namespace again (parse_object(ns)).
@@ -364,6 +389,7 @@ FullItems(shape, c) ==
   \o (IF c.s.k = "cls" THEN <<Obj("s", SpecOf(c.s))>> ELSE IF c.s.k = "none" THEN <<Obj("s", [k |-> "null"])>> ELSE << >>)
   \o (IF c.t.k = "absent" THEN << >> ELSE <<Obj("t", c.t)>>) \o (IF c.d.k = "absent" THEN << >> ELSE <<Obj("d", c.d)>>)
   \o MItems(IF c.mpath = PathV THEN "file" ELSE "obj", c.m)          \* (the namespace keeps __path__)
+  \o NItems("obj", c.n)
 \* (round 4) dump(skip_default=True), _core.py:818-822: the defaults (get_defaults: the declared defaults merged with the
 \* default config file, links applied) are stripped of the link targets and cleaned like the configuration, then
 \* _dump_delete_default_entries (:849-868) deletes every entry that equals its default, descending into groups; a
